@@ -64,6 +64,12 @@ pub fn all_ids() -> Vec<&'static str> {
     IDS.to_vec()
 }
 
+#[cfg(fuzzing)]
+pub fn jobs(_id: &str, _env: &Env) -> Vec<Box<dyn Job>> {
+    Vec::new()
+}
+
+#[cfg(not(fuzzing))]
 pub fn jobs(id: &str, env: &Env) -> Vec<Box<dyn Job>> {
     match id {
         "C01" => c01::jobs(env),
